@@ -351,6 +351,9 @@ class Gen:
         if t == I:
             if sc.get('dot') == I and r.random() < 0.5:
                 return ('dot',)
+            if self.noise and sc.get('infn') and r.random() < self.noise:
+                self.tags.add('noise:focus')      # `.` in a function body: focus absent (F16f)
+                return ('dot',)
             return self.lit()
         if t == B:
             return (r.choice(['tt', 'ff']),)
@@ -454,6 +457,9 @@ class Gen:
                         full.append(next(it))
                 f = self.gen(F(full, ret), sc, d - 1)
                 call_args = [self.gen(full[i], sc, d - 2) if i in pos else None for i in range(len(full))]
+                if self.noise and r.random() < self.noise:
+                    self.tags.add('noise:partial-arity')   # one placeholder too many (F16e)
+                    call_args.append(None)
                 self.tags.add('partial')
                 return ('call', f, call_args)
             if k < 0.24:
@@ -478,7 +484,7 @@ class Gen:
                     if subtype(mk(args[0] if is_seq(args[0]) else S(args[0])), t):
                         return ('named', name)
         # inline function expression
-        ps, sc2 = [], dict(sc, dot=None)
+        ps, sc2 = [], dict(sc, dot=None, infn=True)
         for a in args:
             p = self.fresh(sc2, avoid=ps)
             ps.append(p)
@@ -670,19 +676,68 @@ def canon_items(v) -> str:
     return ','.join(out) if out else '()'
 
 
-def run_impl(text: str) -> str:
+class _Timeout(BaseException):
+    pass
+
+
+def _alarm(signum, frame):
+    raise _Timeout()
+
+
+def run_impl(text: str, limit: float = 0.5) -> str:
+    """evaluate with the real code; a program whose evaluation does not finish within `limit`
+    seconds (sequence sizes can explode: `$s ! $s` inside a fold) is reported as 'TIMEOUT' and
+    skipped by the caller"""
+    import signal
     import elementpath
     from elementpath.xpath3 import XPath31Parser
     from elementpath.exceptions import ElementPathError
+    old = signal.signal(signal.SIGALRM, _alarm)
+    signal.setitimer(signal.ITIMER_REAL, limit)
     try:
         return canon_items(elementpath.select(None, text, parser=XPath31Parser, item=1))
+    except _Timeout:
+        return 'TIMEOUT'
     except ElementPathError as e:
         code = (e.code or 'NOCODE').split(':')[-1]
         return 'ERR:' + code
     except RecursionError:
         return 'ERR:OTHER:RecursionError'
+    except MemoryError:
+        return 'TIMEOUT'
     except Exception as e:  # anything else escaping is part of the behaviour
         return 'ERR:OTHER:' + type(e).__name__
+    finally:
+        signal.setitimer(signal.ITIMER_REAL, 0)
+        signal.signal(signal.SIGALRM, old)
+
+
+def safe_driver(run: Run, lines: list[str], budget: float = 90.0) -> list:
+    """the Lean driver with a safety net: a chunk that does not answer in time is bisected and the
+    offending line answered with None"""
+    import subprocess
+    from harness.common import LEAN
+
+    def go(ls, t):
+        if not ls:
+            return []
+        data = '\n'.join(ls) + '\n'
+        try:
+            p = subprocess.run(['lake', 'env', 'lean', '--run', 'Drivers/C16.lean'], cwd=LEAN, input=data,
+                               capture_output=True, text=True, timeout=t)
+            out = p.stdout.split('\n')
+            if out and out[-1] == '':
+                out.pop()
+            if p.returncode != 0 or len(out) != len(ls):
+                raise DriverError(f'driver C16: rc={p.returncode}, {len(out)} answers for {len(ls)} lines\n'
+                                  f'{p.stderr[-2000:]}')
+            return out
+        except subprocess.TimeoutExpired:
+            if len(ls) == 1:
+                return [None]
+            h = len(ls) // 2
+            return go(ls[:h], max(6.0, t / 3)) + go(ls[h:], max(6.0, t / 3))
+    return go(lines, budget)
 
 
 W_SHARE = ('smap', ('par', ('for', 0, ('cat', ('lit', 1), ('lit', 2)), ('fn', 0, [], ('var', 0)))), ('call', ('dot',), []))
@@ -715,13 +770,23 @@ TREES: dict[str, tuple] = {}
 
 
 def compare(run: Run, cfg: str, progs: list, record=True) -> list[Disagreement]:
+    impls = [run_impl(xp(e)) for e, _ in progs]
+    keep = [i for i, r in enumerate(impls) if r != 'TIMEOUT']
+    if record and len(keep) != len(progs):
+        run.stats.count('skipped:timeout', len(progs) - len(keep))
+    progs = [progs[i] for i in keep]
+    impls = [impls[i] for i in keep]
     lines = [f'cfg={cfg} fuel={FUEL} P={proto(e)}' for e, _ in progs]
-    answers = run.driver('C16', lines)
+    answers = safe_driver(run, lines)
     out = []
     st = run.stats
-    for (e, tags), line, ans in zip(progs, lines, answers):
+    for (e, tags), line, ans, impl in zip(progs, lines, answers, impls):
         text = xp(e)
         case = {'xpath': text, 'program': proto(e), 'cfg': cfg}
+        if ans is None:
+            if record:
+                st.count('skipped:model-timeout')
+            continue
         if ans.startswith('bad-'):
             out.append(Disagreement(case, 'driver:' + ans, what='protocol'))
             continue
@@ -730,7 +795,6 @@ def compare(run: Run, cfg: str, progs: list, record=True) -> list[Disagreement]:
             if record:
                 st.count('skipped:fuel')
             continue
-        impl = run_impl(text)
         ftags = [tag for bit, (_, tag) in zip(flags, FLAG_TAGS) if bit == '1']
         if record:
             ks = kinds(e, set())
@@ -831,9 +895,12 @@ def correspond(run: Run, cfg: str) -> None:
                       'multi-component keys; every 5th program with 6% ill-typed operands / wrong arity); real '
                       'code vs Lean model vs Lean spec on the canonical result text.  distinct = distinct '
                       'programs containing a function expression or reference')
-    for i in range(0, len(progs), 3000):
-        for d in compare(run, cfg, progs[i:i + 3000]):
+    for i in range(0, len(progs), 1500):
+        for d in compare(run, cfg, progs[i:i + 1500]):
             run.disagree(d)
+    skipped = sum(v for k, v in run.stats.hist.items() if k.startswith('skipped:'))
+    if skipped * 50 > len(progs):
+        run.broken.append(f'correspondence:C16/too-many-skipped ({skipped} of {len(progs)} programs timed out)')
 
 
 def search(run: Run):
